@@ -69,6 +69,11 @@ def run(ctx):
     # the instances (a generator that is not ready, or not independent, at the first concurrent use repeats values)
     import conc
     conc.burst(ctx, 6 if ctx.quick() else 24, 8, 3 if ctx.quick() else 12)
+    # (e) hammer: one instance, 16 threads, thousands of calls of ONE kind each: a race window of a few
+    # instructions between two critical sections (a generator copied out and written back, a two-step fork) is only hit
+    # under real contention and at volume (measured on such a seeded change: 12-117 repeated values per run, none at 8 x 400)
+    for kind, what, k in ((0, 'encaps', 1500), (1, 'PKE encrypt', 800), (2, 'header generate', 800)):
+        conc.burst(ctx, 1, 16, k if ctx.quick() else 12 * k, kind=kind, what=f' (all {what})')
     ctx.nontrivial = set(ctx.hist) | {f'stress-thread-{i}' for i in range(len(done))}
     ctx.samples = [f'{k}: {" ".join(v) or "(no lock)"}' for k, v in list(sk.items())[:13]]
     ctx.rule = ('lock skeleton of the 13 API methods regenerated from the source; each method run single-threaded under a watchdog, run against a held lock, and in a stress run of T threads x N mixed calls '
